@@ -733,8 +733,11 @@ def run(ctx, args):
     ctx.exhaustive = False
     return ctx.finish(
         rule="case = type shape (TLC Shapes, depth<=1 all, thorough: + seeded sample of depth 2) x form (literal per way of writing "
-             "the leaves, empty, identifier, qualified identifier, through typedef / typedef chain / typedef of an included file) "
-             "for a constant and for field defaults; x configuration. One evaluation = one generated constant compared, or one "
+             "the leaves, empty, identifier, qualified identifier, through typedef / typedef chain / typedef of an included file / "
+             "typedef'd element type, plus hand-written cases: struct-likes inside struct-likes, unions, exceptions, implicit enum "
+             "numbers, every optional scalar kind inside a struct literal) for a constant and for field defaults (quick: field "
+             "defaults of containers for the first three leaf ways only); x configuration (quick: other configurations on the cases "
+             "whose representation they change + a seeded sample). One evaluation = one generated constant compared, or one "
              "observation (fields + getters + IsSet) of a struct-object trace step compared. distinct class = (check, form, "
              "container kind, value leaf kind, depth, key way, value way, configuration[, trace step])",
         assumptions=["literals are drawn from the alphabet where the documented rule is unambiguous (plain characters, both quote "
@@ -742,6 +745,8 @@ def run(ctx, args):
                      "leading zeros; integer literals fit the declared width",
                      "nil and zero/empty are the same abstract value for scalars and containers ('zero/nil' in the statement)",
                      "set constants are compared as multisets, map constants as sets of entries",
+                     "use_type_alias=false: fields whose type (or element type) is a typedef of a base type or struct-like are left "
+                     "out (their serialization code does not compile, which is C01's subject); the constants of those cases are judged",
                      "IsSet is only demanded to be true for an optional field holding a value different from its default; "
                      "getters are only judged for optional fields with a declared default"],
         trusted=["lib/c06_model.py literal table (spelling -> atom)", "harness pkg/drv Dump/Build, pkg/c06", "go toolchain", "TLC"])
